@@ -113,6 +113,7 @@ func newOpenRun(out *TraceWriter, seed int64, run int, epoch int64, emitStart bo
 		c.PoolBy = append(c.PoolBy, n.ID)
 	}
 	n.RMsgOrder = func(k int) []int { return rng.Perm(k) }
+	n.LaxVerify = run%3 == 1
 	n.Height = h0
 	n.TipTs = uint64(epoch) - uint64(rng.Intn(900)) // every absolute instant derives from the injected clock
 	if h0 > 0 {
@@ -184,8 +185,13 @@ func (o *openRun) step() *Line {
 		}
 		return n.Timeout(n.Timer.H, n.Timer.V)
 	case 2: // transaction
-		if m := d.MissingTransactions; len(m) > 0 && rng.Intn(100) < 78 {
-			return n.Transaction(Tx(pick(rng, m)))
+		if m := d.MissingTransactions; len(m) > 0 {
+			switch r := rng.Intn(100); {
+			case r < 66:
+				return n.Transaction(Tx(pick(rng, m)))
+			case r < 80: // a transaction nobody asked for, while the node waits for others (it must not count towards the proposal)
+				return n.Transaction(Tx(fmt.Sprintf("t%d.%d", d.BlockIndex, 7+rng.Intn(2))))
+			}
 		}
 		if len(n.Requested) > 0 && rng.Intn(100) < 70 {
 			return n.Transaction(Tx(pick(rng, n.Requested))) // possibly a late answer to an earlier view's request
